@@ -9,7 +9,7 @@ import tempfile
 
 from runner import Judge
 from wire import norm_abs
-from loadcheck import render_model, _seq
+from loadcheck import render_model, _seq, attr_val
 
 
 # ------------------------------------------------------------------ documented naming conversions (independent)
@@ -234,7 +234,7 @@ class JsJudge(Judge):
                 for s in surfaces.values():
                     for rt in _seq(s['routes']):
                         exp[route_fn(s['ns'], rt['n'], rt['ver'])] = \
-                            [route_url(s['ns'], rt['n'], rt['ver']), 'ARG' if rt['has_arg'] else None] + list(rt['attrs'])
+                            [route_url(s['ns'], rt['n'], rt['ver']), 'ARG' if rt['has_arg'] else None] + [attr_val(a) for a in _seq(rt['attrs'])]
                 self.count('js_client_functions', len(calls))
                 if set(calls) != set(exp):
                     bad('js_client defines functions %s, the API has route versions %s' % (sorted(calls), sorted(exp)))
